@@ -31,9 +31,14 @@ UNS = ["U8", "U16", "U32", "U64"]
 SGN = {"U8": "I8", "U16": "I16", "U32": "I32", "U64": "I64"}
 
 TU = r"""
+#define SBEPP_ENABLE_ASSERTS_WITH_HANDLER
 #include <sbepp/sbepp.hpp>
 namespace srcexprs {
 struct entry { entry(char*, char*, std::size_t) {} entry(char*, std::nullptr_t, std::size_t) {} };
+inline void srcexprs_size_check(const char* begin, const char* end, std::size_t offset, std::size_t size)
+{
+    SBEPP_SIZE_CHECK(begin, end, offset, size);
+}
 }
 %s
 """
@@ -111,6 +116,15 @@ CASTS = {"ImplicitCastExpr", "CXXStaticCastExpr", "CXXFunctionalCastExpr", "CSty
 BSWAP = {"__builtin_bswap16": 2, "__builtin_bswap32": 4, "__builtin_bswap64": 8}
 
 
+INLINE = {}      # name -> (parameter names, translated return expression) of pure functions inlined at their calls
+
+
+def _char_ptr(n):
+    q = _ty(n)
+    if q.replace(" ", "") not in ("char*", "unsignedchar*", "signedchar*"):
+        raise TranslationError("pointer to '%s' (only byte pointers are flat addresses)" % q)
+
+
 def _z(v):
     v = int(v)
     return "(%d)" % v
@@ -131,6 +145,9 @@ def expr(n):
             return "(EToBool %s)" % expr(inner[-1])
         if ck in ("FunctionToPointerDecay", "BuiltinFnToFnPtr"):
             return expr(inner[-1])
+        if ck == "PointerToBoolean":
+            _char_ptr(inner[-1])
+            return "(EToBool %s)" % expr(inner[-1])
         raise TranslationError("cast kind %s" % ck)
     if k == "IntegerLiteral":
         return "(ELit %s)" % _z(n["value"])
@@ -152,6 +169,19 @@ def expr(n):
     if k == "BinaryOperator":
         op = n["opcode"]
         a, b = inner
+        if op == "&&":
+            return "(ECond %s %s (ELit (0)))" % (expr(a), expr(b))
+        if op == "||":
+            return "(ECond %s (ELit (1)) %s)" % (expr(a), expr(b))
+        if _is_ptr(a) or _is_ptr(b):
+            # only flat byte pointers: comparison and difference of two char pointers
+            _char_ptr(a)
+            _char_ptr(b)
+            if op in CMP:
+                return "(ECmp %s %s %s)" % (CMP[op], expr(a), expr(b))
+            if op == "-" and _ity(n, "pointer difference") == "I64":
+                return "(EBin OSub I64 %s %s)" % (expr(a), expr(b))
+            raise TranslationError("pointer operator %s" % op)
         if op in BIN:
             return "(EBin %s %s %s %s)" % (BIN[op], _ity(n, "operator " + op), expr(a), expr(b))
         if op == "<<":
@@ -178,6 +208,15 @@ def expr(n):
         name = callee[0]["referencedDecl"]["name"] if callee else "?"
         if name in BSWAP and len(inner) == 2:
             return "(EBswap %d %s)" % (BSWAP[name], expr(inner[1]))
+        if name in INLINE:
+            params, body = INLINE[name]
+            if len(params) != len(inner) - 1:
+                raise TranslationError("call of %s with %d arguments" % (name, len(inner) - 1))
+            for i, pn in enumerate(params):
+                body = body.replace('(EVar "%s")' % pn, "\x00%d\x00" % i)
+            for i, a in enumerate(inner[1:]):
+                body = body.replace("\x00%d\x00" % i, expr(a))
+            return body
         raise TranslationError("call of %s" % name)
     raise TranslationError("expression node %s" % k)
 
@@ -199,6 +238,8 @@ def effects(fn):
         raise TranslationError("function %s has no body" % fn.get("name"))
     out = []
     for st in body[0].get("inner", []):
+        while st.get("kind") in PASS:
+            st = st["inner"][0]
         k = st.get("kind")
         if k == "NullStmt":
             continue
@@ -213,6 +254,13 @@ def effects(fn):
                     probe["inner"][0]["kind"] == "CXXThisExpr":
                 continue                                    # return *this;
             out.append("(Return %s)" % expr(e))
+            continue
+        if k == "ConditionalOperator" and _ty(st) == "void":
+            calls = _find(st["inner"][2], lambda x: x["kind"] == "DeclRefExpr" and
+                          x.get("referencedDecl", {}).get("name") == "assertion_failed", [])
+            if not calls or _find(st["inner"][1], lambda x: x["kind"] == "CallExpr", []):
+                raise TranslationError("conditional statement that is not an SBEPP_ASSERT")
+            out.append("(Assert %s)" % expr(st["inner"][0]))
             continue
         if k == "DeclStmt":
             for vd in st.get("inner", []):
@@ -272,6 +320,23 @@ def _param_types(m):
 
 def translate(repo):
     defs = []       # (name, list of effects)
+    # --- detail::is_within_size and the SBEPP_SIZE_CHECK macro (through a function of the instantiation unit)
+    INLINE.clear()
+    objs = _dump(repo, "is_within_size")
+    fns = [o for o in objs if o.get("kind") == "FunctionDecl" and o.get("name") == "is_within_size"]
+    if len(fns) != 1:
+        raise TranslationError("is_within_size: %d definitions" % len(fns))
+    effs = effects(fns[0])
+    if len(effs) != 1 or not effs[0].startswith("(Return "):
+        raise TranslationError("is_within_size is not a single return statement")
+    params = [c["name"] for c in fns[0].get("inner", []) if c.get("kind") == "ParmVarDecl"]
+    INLINE["is_within_size"] = (params, effs[0][len("(Return "):-1])
+    defs.append(("src_is_within_size", effs))
+    objs = _dump(repo, "srcexprs_size_check")
+    fns = [o for o in objs if o.get("kind") == "FunctionDecl" and o.get("name") == "srcexprs_size_check"]
+    if len(fns) != 1:
+        raise TranslationError("size check probe: %d definitions" % len(fns))
+    defs.append(("src_size_check_macro", effects(fns[0])))
     # --- bitset_base<T>::operator()(get_bit_tag / set_bit_tag)
     objs = _dump(repo, "bitset_base")
     specs = []
